@@ -68,13 +68,19 @@ func VerifH_file_serve4() {
 	resp, ec, ev := vh.Resp4(req)
 	n0 := len(resp.Options)
 	old := resp.YourIPAddr
+	// the DHCPv6 instance may list the same hardware address: that is not this protocol's business
+	if vnd.Pick("alsov6", 0, 1) == 1 {
+		installTable(true, map[string]net.IP{req.ClientHWAddr.String(): net.ParseIP("2001:db8::66")})
+	} else {
+		installTable(true, nil)
+	}
 
 	shareTables()
 	r, stop := Handler4(req, resp)
 	vnd.Unshare()
 
 	vnd.Assert(r != nil || stop, "C13 a built-in handler returns a nil response only together with stop")
-	vnd.Assert(vnd.HeldLocks() == 0, "C16 file plugin read lock released")
+	vnd.AssertEngine(vnd.HeldLocks() == 0, "C16 file plugin read lock released")
 	vnd.Assert(r == resp, "C10 file4 passes the response object on")
 	if want != nil {
 		vnd.Cover("listed")
@@ -143,7 +149,7 @@ func VerifH_file_serve6() {
 	vnd.Unshare()
 
 	vnd.Assert(r != nil || stop, "C13 a built-in handler returns a nil response only together with stop")
-	vnd.Assert(vnd.HeldLocks() == 0, "C16 file plugin read lock released")
+	vnd.AssertEngine(vnd.HeldLocks() == 0, "C16 file plugin read lock released")
 	vnd.Assert(r == dhcpv6.DHCPv6(resp) && !stop, "C10 file6 passes the response on")
 	nas := resp.Options.Get(dhcpv6.OptionIANA)
 	if wantsNA && learnable && which < len(macs) {
@@ -199,7 +205,7 @@ func VerifH_file_swap() {
 	vnd.Unshare()
 
 	sections := vnd.CriticalSections() - before
-	vnd.Assert(vnd.HeldLocks() == 0, "C16 file plugin write lock released")
+	vnd.AssertEngine(vnd.HeldLocks() == 0, "C16 file plugin write lock released")
 	cur := currentTable(v6)
 	if fails {
 		vnd.Cover("bad-update")
@@ -209,7 +215,7 @@ func VerifH_file_swap() {
 		vnd.Cover("good-update")
 		vnd.Assert(err == nil, "C10 a well-formed file loads")
 		vnd.Assert(len(cur) == 2 && cur["00:00:00:00:00:02"] != nil && cur["00:00:00:00:00:03"] != nil && cur["00:00:00:00:00:01"] == nil, "C10 a well-formed update replaces the whole mapping")
-		vnd.Assert(sections == 1, "C16 the mapping is swapped inside one write-locked section")
+		vnd.AssertEngine(sections == 1, "C16 the mapping is swapped inside one write-locked section")
 	}
 }
 
